@@ -5168,6 +5168,146 @@ fn f6(ctx: &mut Ctx, env: &Env) {
     }
 }
 
+/// F1r — ESK plaintext behind an *honest, reference-made* ECDH / X25519 / X448 key agreement.
+/// The library's own `encrypt` always pads validly and always wraps well-formed key data; a
+/// hostile sender does the agreement, KDF and AES key wrap correctly but chooses the wrapped
+/// octets freely (padding octet larger than the plaintext, inconsistent padding, odd lengths).
+fn f1r(ctx: &mut Ctx) {
+    use crate::rfc::frame::{frame, LenForm};
+    use crate::rfc::key::{ecdh_kek, ecdh_shared_sender, parse_ecdh_material, x25519_wrap, x448_wrap, RefPub};
+    let specs = [
+        zoo::Spec::simple(false, zoo::Alg::Ed25519Legacy, Some(zoo::Alg::EcdhCv25519)),
+        zoo::Spec::simple(false, zoo::Alg::Ed25519Legacy, Some(zoo::Alg::EcdhP256)),
+        zoo::Spec::simple(true, zoo::Alg::Ed25519, Some(zoo::Alg::EcdhP256)),
+        zoo::Spec::simple(false, zoo::Alg::Ed25519Legacy, Some(zoo::Alg::EcdhP384)),
+        zoo::Spec::simple(true, zoo::Alg::Ed25519, Some(zoo::Alg::EcdhP521)),
+        zoo::Spec::simple(false, zoo::Alg::Ed25519Legacy, Some(zoo::Alg::X25519)),
+        zoo::Spec::simple(true, zoo::Alg::Ed25519, Some(zoo::Alg::X25519)),
+        zoo::Spec::simple(true, zoo::Alg::Ed25519, Some(zoo::Alg::X448)),
+    ];
+    let lasts: Vec<u8> = if ctx.quick() { vec![0, 1, 2, 7, 8, 9, 15, 16, 17, 24, 25, 39, 40, 41, 128, 255] } else { (0..=255).collect() };
+    for (si, spec) in specs.iter().enumerate() {
+        let key = zoo::key(spec, 0);
+        let Some(sub) = key.secret_subkeys.first() else { continue };
+        let Ok(pub_body) = sub.key.public_key().to_bytes() else { continue };
+        let Some((rp, _)) = RefPub::parse_prefix(&pub_body) else { continue };
+        let fp = rp.fingerprint();
+        let kid = rp.key_id();
+        for v6 in [false, true] {
+            for len in [8usize, 16, 24, 32, 40, 48] {
+                if !ctx.mine() {
+                    continue;
+                }
+                core::describe_case(&format!("F1r:{}:pkesk-v{}:len={len}", spec.name(), if v6 { 6 } else { 3 }));
+                let mut rng = ctx.rng("F1r", (si * 1000 + len * 2 + v6 as usize) as u64);
+                for (li, last) in lasts.iter().enumerate() {
+                    for fill in 0..3u8 {
+                        // raw wrapped octets: random / all equal to `last` / session-key-like with bad padding
+                        let mut raw = vec![0u8; len];
+                        rng.fill_bytes(&mut raw);
+                        match fill {
+                            1 => raw.iter_mut().for_each(|b| *b = *last),
+                            2 => {
+                                raw[0] = 7;
+                            }
+                            _ => {}
+                        }
+                        raw[len - 1] = *last;
+                        let mut seed = [0u8; 32];
+                        rng.fill_bytes(&mut seed);
+                        let fields: Option<Vec<u8>> = match rp.alg {
+                            18 => (|| {
+                                let ek = parse_ecdh_material(&rp.material)?;
+                                let (eph, shared) = ecdh_shared_sender(&ek.oid, &ek.point, &seed)?;
+                                let kek = ecdh_kek(&ek, &fp, &shared)?;
+                                let wrapped = rfc::sym::aes_kw_wrap(&kek, &raw)?;
+                                let mut o = rfc::mpi(&eph);
+                                o.push(wrapped.len() as u8);
+                                o.extend(wrapped);
+                                Some(o)
+                            })(),
+                            25 => (|| {
+                                if len < 16 {
+                                    return None;
+                                }
+                                let rpk: [u8; 32] = rp.material.get(..32)?.try_into().ok()?;
+                                let (eph, wrapped) = x25519_wrap(&rpk, &seed, &raw)?;
+                                let mut o = eph;
+                                if v6 {
+                                    o.push(wrapped.len() as u8);
+                                } else {
+                                    o.push(wrapped.len() as u8 + 1);
+                                    o.push(*last);
+                                }
+                                o.extend(wrapped);
+                                Some(o)
+                            })(),
+                            26 => (|| {
+                                if len < 16 {
+                                    return None;
+                                }
+                                let rpk: [u8; 56] = rp.material.get(..56)?.try_into().ok()?;
+                                let mut s56 = [0u8; 56];
+                                rng.fill_bytes(&mut s56);
+                                let (eph, wrapped) = x448_wrap(&rpk, &s56, &raw)?;
+                                let mut o = eph;
+                                if v6 {
+                                    o.push(wrapped.len() as u8);
+                                } else {
+                                    o.push(wrapped.len() as u8 + 1);
+                                    o.push(*last);
+                                }
+                                o.extend(wrapped);
+                                Some(o)
+                            })(),
+                            _ => None,
+                        };
+                        let Some(fields) = fields else { continue };
+                        let mut pk = vec![];
+                        if v6 {
+                            pk.push(6u8);
+                            pk.push(fp.len() as u8 + 1);
+                            pk.push(rp.version);
+                            pk.extend(&fp);
+                        } else {
+                            pk.push(3u8);
+                            pk.extend(kid);
+                        }
+                        pk.push(rp.alg);
+                        pk.extend(fields);
+                        let mut msg = frame(1, &pk, &LenForm::NewMin).unwrap();
+                        // container: the session key (whatever the recipient derives) will not match;
+                        // what matters is that deriving it does not panic
+                        let sk = [0x11u8; 16];
+                        let lit = frame(11, &[b'b', 0, 0, 0, 0, 0, b'h', b'i'], &LenForm::NewMin).unwrap();
+                        if v6 {
+                            let body = rfc::sym::seipd_v2_encrypt(7, 2, 0, &[5u8; 32], &sk, &lit).unwrap();
+                            msg.extend(frame(18, &body, &LenForm::NewMin).unwrap());
+                        } else {
+                            let mut body = vec![1u8];
+                            body.extend(rfc::sym::seipd_v1_encrypt(7, &sk, &[9u8; 16], &lit).unwrap());
+                            msg.extend(frame(18, &body, &LenForm::NewMin).unwrap());
+                        }
+                        let replay = || json!({"family": "F1r", "key": spec.name(), "pkesk_v6": v6, "wrapped_plain": hexs(&raw), "msg": hexs(&msg)});
+                        ctx.eval();
+                        ctx.cover(&("F1r", si, v6, len, *last, fill));
+                        let _ = ctx.guarded("C04/F1r", replay, || {
+                            if let Ok(m) = Message::from_bytes(&msg[..]) {
+                                if let Ok(mut d) = m.decrypt(&Password::empty(), &key) {
+                                    let mut out = vec![];
+                                    let _ = d.read_to_end(&mut out);
+                                }
+                            }
+                        });
+                        let _ = li;
+                    }
+                }
+                ctx.seen("F1r.recipients", format!("alg{}-pkesk-v{}", rp.alg, if v6 { 6 } else { 3 }));
+            }
+        }
+    }
+}
+
 pub fn run(ctx: &mut Ctx) {
     let only = std::env::var("VERIF_C04_ONLY").unwrap_or_default();
     let want = |f: &str| only.is_empty() || only.split(',').any(|x| x == f);
@@ -5179,6 +5319,7 @@ pub fn run(ctx: &mut Ctx) {
     }
     if want("F1") {
         f1(ctx, &env);
+        f1r(ctx);
     }
     if want("F2") {
         f2(ctx);
